@@ -465,6 +465,18 @@ def _run(tier, replay, work):
         if c["got"]["kind"] == "resp" and c["term"] == "eof" and len(ctx.cov["samples"]) < 6 and len(c["segs"]) > 4:
             ctx.sample({"cut": c["id"], "delivered": [s["k"] for s in c["segs"]], "then": c["term"], "answer": c["got"]})
 
+    # ------------------------------------------------------------------ 3a'. three calls in flight on one route, one target silent
+    # (every call is bounded by its own deadline: Proxy.tla has no state shared between calls but the balancer's index)
+    p = _run_harness(proxy, ["stall"], timeout=120)
+    st = [x for x in parse_jsonl(p.stdout) if x.get("summary")]
+    if p.returncode != 0 or not st:
+        raise vlib.ToolError("proxy stall failed rc=%s: %s" % (p.returncode, p.stderr[-1500:]))
+    ctx.cov["evaluations"] += 3
+    ctx.add_part("concurrent calls, one target silent", calls=st[0]["calls"], total_ms=st[0]["total_ms"], not_as_specified=len(st[0]["bad"]))
+    if st[0]["bad"]:
+        ctx.violation("three proxied requests in flight on one route (targets: silent, healthy, silent): %s" % "; ".join(st[0]["bad"])[:900],
+                      {"kind": "proxy-stall", "calls": st[0]["calls"], "bad": st[0]["bad"]})
+
     # ------------------------------------------------------------------ 3b. balancer logs linearised by TLC
     # small groups (1..4 targets x 1..K threads x 3 calls, both modes, locked and through proxy_handler) and stress rounds:
     # 8 threads x 200 (thorough: 300) proxy_handler calls each on one round-robin balancer against fast upstreams
